@@ -46,6 +46,7 @@ type Failure struct {
 	Observe []string    `json:"observe,omitempty"`
 	Model   string      `json:"model,omitempty"`
 	Harness string      `json:"harness"`
+	Sched   bool        `json:"sched,omitempty"`
 }
 
 // exec is the per-worker executor; path-specific state is reset for every path.
@@ -68,7 +69,7 @@ type exec struct {
 	alts      [][]int
 	failures  []Failure
 	reach     map[string]bool
-	observe   []string
+	observe   []obsRec
 	panicSite *panicSiteInfo
 	expectPanic bool
 	sawUnknown  bool
@@ -122,6 +123,7 @@ type PathSample struct {
 	Nondet  []NondetRec `json:"nondet,omitempty"`
 	PC      []string    `json:"path_condition,omitempty"`
 	Observe []string    `json:"observe,omitempty"`
+	Sched   bool        `json:"sched,omitempty"`
 }
 
 // Report is the result of exploring one harness.
@@ -222,9 +224,9 @@ func (ex *exec) check(extra *Term, wantModel bool) (Result, map[string]interface
 		}
 	}
 	if useFP {
-		return ex.fp.Check(ext, ex.tt.vars, wantModel)
+		return ex.fp.Check(ext, ex.modelTerms(wantModel), wantModel)
 	}
-	return ex.solver.Check(ext, ex.tt.vars, wantModel)
+	return ex.solver.Check(ext, ex.modelTerms(wantModel), wantModel)
 }
 
 // decide makes an n-way decision; opts[i] is the condition under which option i applies (exhaustive).
@@ -427,7 +429,7 @@ func (ex *exec) pathChoices() []int {
 
 func (ex *exec) recordFailure(kind, key, msg, site string, stack []string, model map[string]interface{}) {
 	f := Failure{Kind: kind, Key: key, Msg: msg, Site: site, Stack: stack, Path: ex.pathChoices(),
-		Nondet: ex.nondetRecs(model), Observe: append([]string(nil), ex.observe...), Harness: ex.harness}
+		Nondet: ex.nondetRecs(model), Observe: ex.renderObserve(model), Harness: ex.harness, Sched: ex.schedNondet}
 	var sb strings.Builder
 	names := make([]string, 0, len(model))
 	for k := range model {
@@ -488,21 +490,27 @@ func (ex *exec) runPath(entry *ssa.Function, prefix []int, wantSample bool) (out
 			out.status, out.reason = "incomplete", ex.notes[0]
 		}
 		if out.status == "ok" && wantSample {
-			s := &PathSample{Path: ex.pathChoices(), Observe: ex.observe}
+			s := &PathSample{Path: ex.pathChoices(), Sched: ex.schedNondet}
 			if len(ex.tt.vars) > 0 {
 				r, model := ex.check(nil, true)
 				if r == Sat {
 					s.Nondet = ex.nondetRecs(model)
+					s.Observe = ex.renderObserve(model)
+				} else {
+					s = nil
 				}
 			} else {
 				s.Nondet = ex.nondetRecs(nil)
+				s.Observe = ex.renderObserve(nil)
 			}
+			if s != nil {
 			for i, t := range ex.pcTerms {
 				if i >= 12 {
 					s.PC = append(s.PC, fmt.Sprintf("… %d more", len(ex.pcTerms)-i))
 					break
 				}
 				s.PC = append(s.PC, t.String())
+			}
 			}
 			out.sample = s
 		}
@@ -755,4 +763,60 @@ func addStats(a, b *SolverStats) {
 	a.Errors += b.Errors
 	a.Time += b.Time
 	a.Restarts += b.Restarts
+}
+
+
+type obsRec struct {
+	tag string
+	v   value
+}
+
+func (ex *exec) modelTerms(want bool) []*Term {
+	if !want {
+		return nil
+	}
+	ts := append([]*Term(nil), ex.tt.vars...)
+	for _, o := range ex.observe {
+		if s, ok := o.v.(sym); ok && s.t.op != "var" {
+			ts = append(ts, s.t)
+		}
+	}
+	return ts
+}
+
+// renderObserve prints observations as the native side does (fmt %v of scalars).
+func (ex *exec) renderObserve(model map[string]interface{}) []string {
+	out := make([]string, 0, len(ex.observe))
+	for _, o := range ex.observe {
+		v := o.v
+		if i, ok := v.(iface); ok {
+			v = i.v
+		}
+		if s, ok := v.(sym); ok {
+			var mv interface{}
+			if model != nil {
+				mv = model[refSMT(s.t)]
+			}
+			switch x := mv.(type) {
+			case uint64:
+				if signedKind(s.k) {
+					out = append(out, fmt.Sprintf("%s=%d", o.tag, signExtend(x, s.t.sort.bits())))
+				} else {
+					out = append(out, fmt.Sprintf("%s=%d", o.tag, x))
+				}
+			case nil:
+				out = append(out, o.tag+"=?")
+			default:
+				out = append(out, fmt.Sprintf("%s=%v", o.tag, x))
+			}
+			continue
+		}
+		switch x := v.(type) {
+		case bool, int, int8, int16, int32, int64, uint, uint8, uint16, uint32, uint64, float64, string:
+			out = append(out, fmt.Sprintf("%s=%v", o.tag, x))
+		default:
+			out = append(out, o.tag+"="+toString(v))
+		}
+	}
+	return out
 }
